@@ -1,4 +1,5 @@
 import GarbleVerif.Model.MatchSpec
+import GarbleVerif.Proofs.MatchComplete
 /-!
 # C08 — match: the first matching arm decides; exhaustiveness
 
@@ -14,10 +15,13 @@ The specification side of C08, proved for all values, patterns and arm lists:
   it — so every "accepts a non-exhaustive match" alarm of the check comes with a real
   counterexample.
 
-Not proved: completeness of `uncovered` (if it returns nothing, every value of the type is matched
-by some arm); the argument — patterns can only compare integer leaves with their own constants —
-is given in DESIGN.md. The exhaustiveness algorithm of `check.rs` itself is not modelled; its
-verdicts and its reported missing cases are compared with `uncovered` on every run.
+* `C08_uncovered_complete`: when `uncovered` returns nothing, every well-typed value of the
+  scrutinee's type is matched by some arm — the reference procedure decides exhaustiveness
+  exactly (Proofs/MatchComplete.lean: every value has a representative that no pattern over the
+  same constants can tell apart from it).
+
+The exhaustiveness algorithm of `check.rs` itself is not modelled; its verdicts and its reported
+missing cases are compared with this verified reference on every run.
 -/
 namespace GV
 namespace Src
@@ -113,6 +117,37 @@ theorem C08_uncovered_sound (ty : Ty) (pats : List Pat) (v : Val) (h : uncovered
   unfold uncovered at h
   have := List.find?_some h
   exact firstMatch_none v pats (by simpa using this)
+
+/-- **the reference procedure is exact**: it returns nothing exactly when the arms cover every
+value of the scrutinee's type (patterns can compare an integer only with the constants they
+mention, so a value and its representative are matched by the same patterns) -/
+theorem C08_uncovered_complete (ty : Ty) (pats : List Pat) (h : uncovered ty pats = none) :
+    ∀ v, v.hasType ty = true → ∃ p, p ∈ pats ∧ (matchPat p v).isSome = true :=
+  uncovered_complete ty pats h
+
+theorem C08_uncovered_exact (ty : Ty) (pats : List Pat) :
+    uncovered ty pats = none ↔
+      ∀ v, v ∈ tyReps (pats.flatMap patConsts) ty → ∃ p, p ∈ pats ∧ (matchPat p v).isSome = true := by
+  constructor
+  · intro h v hv
+    unfold uncovered at h
+    have hnone := List.find?_eq_none.mp h v hv
+    have hsome : (firstMatch v pats).isSome = true := by
+      cases hf : firstMatch v pats with
+      | none => simp [hf] at hnone
+      | some i => rfl
+    exact firstMatch_some_mem v pats hsome
+  · intro h
+    unfold uncovered
+    apply List.find?_eq_none.mpr
+    intro v hv
+    obtain ⟨p, hp, hm⟩ := h v hv
+    cases hf : firstMatch v pats with
+    | some i => simp
+    | none =>
+      have := firstMatch_none v pats hf p hp
+      rw [this] at hm
+      simp at hm
 
 /-- non-vacuity: an `i8` match with a hole at 5 -/
 example : uncovered (.int .i8) [.range (-128) 4, .range 6 127] = some (.int 5) := by rfl
